@@ -31,7 +31,7 @@ def gen(seed, idx, tier):
         screening=screening,
         refuse=0.2,
         steps=(3, 25) if not screening else (2, 6),
-        field_kinds=("ramp", "ramp", "pw", "sin") if not screening else ("const", "ramp", "zero"),
+        field_kinds=("ramp", "ramp", "pw", "sin", "wave") if not screening else ("const", "ramp", "zero"),
         eps_kinds=("none",),
     )
     f = scn["drive"]["field"]
